@@ -2,6 +2,7 @@
 //@rewrite `naga::StorageAccess::LOAD` => `sa_load()` :: associated constants of a foreign bitflags type cannot be specified in Verus; sa_load() returns the real constant and states its bit value (spec/lib/prelude.rs)
 //@rewrite `naga::StorageAccess::STORE` => `sa_store()` :: as above
 //@rewrite `naga::StorageAccess::ATOMIC` => `sa_atomic()` :: as above
+//@hoist-closure-patterns :: closure parameter patterns `|(a, b)|` hoisted into `|p| { let (a, b) = p; .. }` (Verus accepts only variables as closure parameters); same bindings
 //@hoist-format-captures :: format! inline captures hoisted to positional arguments (a macro_rules stand-in cannot look inside a string literal); same values, same order
 // Unit bindgroup_gen: the bind group generators of bindgroup.rs against token-level structure specs.
 #![feature(allocator_api)]
@@ -21,8 +22,10 @@ use syn::Ident;
 #[path = "../../spec/lib/prelude.rs"] pub mod prelude;
 #[macro_use] #[path = "../../spec/lib/tokens.rs"] pub mod tokens;
 #[path = "../../spec/lib/wgpu_shim.rs"] pub mod wgpu;
+#[path = "../../spec/lib/seq_lemmas.rs"] pub mod seq_lemmas;
 use prelude::*;
 use tokens::*;
+use seq_lemmas::*;
 
 verus! {
 
@@ -128,7 +131,7 @@ fn quote_shader_stages(stages: wgpu::ShaderStages) -> «(r:» TokenStream«)
     requires
         stages.bits < 8, // [C03.stages-pre] only VERTEX|FRAGMENT|COMPUTE bits occur in the stage map
     ensures
-        ts_view(&r) == stages_toks(stages.bits),» // [C03.stages-toks] the emitted expression denotes exactly this stage set: nothing missing, nothing added
+        ts_view(&r) == stages_toks(stages.bits), // [C03.stages-toks] the emitted expression denotes exactly this stage set: nothing missing, nothing added»
 {
     if stages == wgpu::ShaderStages::all() {
         quote!(wgpu::ShaderStages::all())
@@ -316,7 +319,7 @@ pub open spec fn layout_descriptor_toks(group_no: u32, bs: Seq<GroupBinding>, gs
 //@fn wgsl.rs::buffer_binding_type props=C02
 pub fn buffer_binding_type(storage: naga::AddressSpace) -> «(r:» TokenStream«)
     ensures
-        expected_buf(storage) is Some ==> ts_view(&r) == buf_toks(expected_buf(storage)->0),» // [C02.buf] uniform vs storage and read-only-ness as wgpu's class equality demands (other address spaces never reach a buffer entry)
+        expected_buf(storage) is Some ==> ts_view(&r) == buf_toks(expected_buf(storage)->0), // [C02.buf] uniform vs storage and read-only-ness as wgpu's class equality demands (other address spaces never reach a buffer entry)»
 {
     match storage {
         naga::AddressSpace::Uniform => quote!(wgpu::BufferBindingType::Uniform),
@@ -343,7 +346,7 @@ fn storage_access(access: naga::StorageAccess) -> «(r:» TokenStream«)
     requires
         expected_access(access) is Some, // [C02.access-pre]
     ensures
-        ts_view(&r) == access_toks(expected_access(access)->0),» // [C02.access] read / write / read_write / atomic exactly as declared
+        ts_view(&r) == access_toks(expected_access(access)->0), // [C02.access] read / write / read_write / atomic exactly as declared»
 {
     «proof {
         let b = sa_bits(access);
@@ -376,7 +379,7 @@ fn bind_group_layout_entry(
         stage_map_ok(global_stages@),
     ensures
         !msaa_float(binding) ==> ts_view(&r) == layout_entry_toks(binding, vis_bits(binding, global_stages@), expected_bt(binding)->0), // [C02.entry] [C03.visibility-lookup] own index, the recorded stage set (NONE if unreached), the layout type wgpu's interface validation accepts, count: None
-        msaa_float(binding) ==> ts_view(&r) == layout_entry_toks(binding, vis_bits(binding, global_stages@), expected_bt(binding)->0),» // [C02.msaa-float] multisampled float textures must not be filterable
+        msaa_float(binding) ==> ts_view(&r) == layout_entry_toks(binding, vis_bits(binding, global_stages@), expected_bt(binding)->0), // [C02.msaa-float] multisampled float textures must not be filterable»
 {
     «broadcast use vstd::laws_cmp::group_laws_cmp, vstd::std_specs::btree::group_btree_axioms, axiom_string_obeys_cmp;»
     // Set visibility to all stages that access this binding.
@@ -495,7 +498,7 @@ fn bind_group_layout_descriptor(
         forall|i: int| 0 <= i < group.bindings@.len() ==> expected_bt(&#[trigger] group.bindings@[i]) is Some && !msaa_float(&group.bindings@[i]),
         stage_map_ok(global_stages@),
     ensures
-        ts_view(&r) == layout_descriptor_toks(group_no, group.bindings@, global_stages@),» // [C02.descriptor] [C04.layout-order] exactly one entry per binding of the group, in the order of the resource struct and of the BindGroupEntry list
+        ts_view(&r) == layout_descriptor_toks(group_no, group.bindings@, global_stages@), // [C02.descriptor] [C04.layout-order] exactly one entry per binding of the group, in the order of the resource struct and of the BindGroupEntry list»
 {
     let entries: Vec<_> = group
         .bindings
@@ -548,7 +551,7 @@ fn bind_group_layout(group_no: u32, group: &GroupData) -> «(r:» TokenStream«)
     requires
         forall|i: int| 0 <= i < group.bindings@.len() ==> binding_ok(&#[trigger] group.bindings@[i]), // [C04.layout-pre] documented feature set: named bindings of buffer / texture / sampler type
     ensures
-        ts_view(&r) == bind_group_layout_toks(group_no, group.bindings@),» // [C04.fields] exactly one field per binding of the group, in order, named after the variable and typed by resource kind
+        ts_view(&r) == bind_group_layout_toks(group_no, group.bindings@), // [C04.fields] exactly one field per binding of the group, in order, named after the variable and typed by resource kind»
 {
     let fields: Vec<_> = group
         .bindings
@@ -662,6 +665,311 @@ fn bind_group(group_no: u32, group: &GroupData) -> «(r:» TokenStream«)
     }
 }
 //@end
+
+// ---------------- C04: the bind_groups module ----------------
+pub open spec fn group_supported(d: &GroupData) -> bool {
+    forall|i: int| 0 <= i < d.bindings@.len() ==> binding_ok(&#[trigger] d.bindings@[i]) && expected_bt(&d.bindings@[i]) is Some && !msaa_float(&d.bindings@[i])
+}
+pub open spec fn groups_supported(m: Map<u32, GroupData>) -> bool {
+    forall|g: u32| #[trigger] m.contains_key(g) ==> group_supported(&m[g])
+}
+pub open spec fn group_item_toks(g: u32, bs: Seq<GroupBinding>, gs: Map<String, wgpu::ShaderStages>) -> Seq<Tok> {
+    let name = name_id("BindGroup", g);
+    let layout = bind_group_layout_toks(g, bs);
+    let desc = layout_descriptor_toks(g, bs, gs);
+    let imp = bind_group_toks(g, bs);
+    ts!(
+        #[derive(Debug)]
+        pub struct #name(wgpu::BindGroup);
+        #layout
+        #desc
+        #imp
+    )
+}
+pub open spec fn field_decl_toks(g: u32) -> Seq<Tok> { let f = name_id("bind_group", g); let n = name_id("BindGroup", g); ts!(pub #f: &'a #n) }
+pub open spec fn param_toks(g: u32) -> Seq<Tok> { let f = name_id("bind_group", g); let n = name_id("BindGroup", g); ts!(#f: &bind_groups::#n) }
+pub open spec fn set_toks(g: u32) -> Seq<Tok> { let f = name_id("bind_group", g); ts!(#f.set(pass);) }
+pub open spec fn set_bind_groups_toks(ks: Seq<u32>) -> Seq<Tok> {
+    let params = flat(Seq::new(ks.len(), |i: int| param_toks(ks[i])), Seq::empty(), Seq::empty(), ts!(,));
+    let sets = flat(Seq::new(ks.len(), |i: int| set_toks(ks[i])), Seq::empty(), Seq::empty(), Seq::empty());
+    ts!(
+        pub fn set_bind_groups<P: bind_groups::SetBindGroup>(
+            pass: &mut P,
+            #params
+        ) {
+            #sets
+        }
+    )
+}
+pub open spec fn bind_groups_module_toks(ks: Seq<u32>, m: Map<u32, GroupData>, gs: Map<String, wgpu::ShaderStages>) -> Seq<Tok> {
+    if ks.len() == 0 { Seq::empty() } else {
+        let items = flat(Seq::new(ks.len(), |i: int| group_item_toks(ks[i], m[ks[i]].bindings@, gs)), Seq::empty(), Seq::empty(), Seq::empty());
+        let fields = flat(Seq::new(ks.len(), |i: int| field_decl_toks(ks[i])), Seq::empty(), Seq::empty(), ts!(,));
+        let self_sets = flat(Seq::new(ks.len(), |i: int| set_toks(ks[i])), ts!(self.), Seq::empty(), Seq::empty());
+        let sbg = set_bind_groups_toks(ks);
+        ts!(
+            pub mod bind_groups {
+                #items
+
+                #[derive(Debug, Copy, Clone)]
+                pub struct BindGroups<'a> {
+                    #fields
+                }
+
+                impl BindGroups<'_> {
+                    pub fn set<P: SetBindGroup>(&self, pass: &mut P) {
+                        #self_sets
+                    }
+                }
+
+                // Support both compute and render passes.
+                pub trait SetBindGroup {
+                    fn set_bind_group(
+                        &mut self,
+                        index: u32,
+                        bind_group: &wgpu::BindGroup,
+                        offsets: &[wgpu::DynamicOffset],
+                    );
+                }
+                impl SetBindGroup for wgpu::ComputePass<'_> {
+                    fn set_bind_group(
+                        &mut self,
+                        index: u32,
+                        bind_group: &wgpu::BindGroup,
+                        offsets: &[wgpu::DynamicOffset],
+                    ) {
+                        self.set_bind_group(index, bind_group, offsets);
+                    }
+                }
+                impl SetBindGroup for wgpu::RenderPass<'_> {
+                    fn set_bind_group(
+                        &mut self,
+                        index: u32,
+                        bind_group: &wgpu::BindGroup,
+                        offsets: &[wgpu::DynamicOffset],
+                    ) {
+                        self.set_bind_group(index, bind_group, offsets);
+                    }
+                }
+                impl SetBindGroup for wgpu::RenderBundleEncoder<'_> {
+                    fn set_bind_group(
+                        &mut self,
+                        index: u32,
+                        bind_group: &wgpu::BindGroup,
+                        offsets: &[wgpu::DynamicOffset],
+                    ) {
+                        self.set_bind_group(index, bind_group, offsets);
+                    }
+                }
+            }
+            #sbg
+                )
+    }
+}
+
+// the keys() iterator of a BTreeMap<u32, _> enumerates the domain in ascending order
+pub proof fn lemma_keys_iter<V>(m: Map<u32, V>, kr: Seq<&u32>)
+    requires kr.unref().to_set() == m.dom(), vstd::std_specs::btree::increasing_seq(kr),
+    ensures is_keys(kr.unref(), m.dom()), kr.unref().len() == kr.len(), forall|i: int| 0 <= i < kr.len() ==> kr.unref()[i] == *#[trigger] kr[i],
+{
+    broadcast use vstd::laws_cmp::group_laws_cmp, vstd::std_specs::btree::group_btree_axioms;
+    let us = kr.unref();
+    assert(vstd::laws_cmp::obeys_cmp::<u32>());
+    assert(vstd::laws_cmp::obeys_cmp::<&u32>());
+    vstd::std_specs::btree::axiom_increasing_seq_meaning::<&u32>(kr);
+    assert forall|a: int, b: int| 0 <= a < b < us.len() implies us[a] < us[b] by {
+        assert(<&u32 as vstd::std_specs::cmp::OrdSpec>::cmp_spec(&kr[a], &kr[b]) is Less);
+    }
+    assert forall|x: u32| us.contains(x) <==> m.dom().contains(x) by {
+        if us.contains(x) { assert(us.to_set().contains(x)); }
+        if m.dom().contains(x) { assert(us.to_set().contains(x)); }
+    }
+}
+
+//@fn bindgroup.rs::bind_groups_module props=C04
+«#[verifier::rlimit(150)]»
+pub fn bind_groups_module(
+    bind_group_data: &BTreeMap<u32, GroupData>,
+    global_stages: &BTreeMap<String, wgpu::ShaderStages>,
+) -> «(r:» TokenStream«)
+    requires
+        groups_supported(bind_group_data@), // [C04.module-pre] documented feature set for every binding of every group
+        stage_map_ok(global_stages@),
+    ensures
+        forall|ks: Seq<u32>| is_keys(ks, bind_group_data@.dom()) ==> ts_view(&r) == #[trigger] bind_groups_module_toks(ks, bind_group_data@, global_stages@), // [C04.module] per group (ascending): its struct, resource struct, layout descriptor and impl; BindGroups has one field per group; set_bind_groups and BindGroups::set call bind_group{k}.set(pass) exactly once per group k; the three SetBindGroup impls forward (index, bind_group, offsets) unchanged»
+{
+    «broadcast use vstd::laws_cmp::group_laws_cmp, vstd::std_specs::btree::group_btree_axioms;
+    let ghost m = bind_group_data@;
+    let ghost gs = global_stages@;
+    let ghost mut git;
+    let ghost mut gk1;
+    let ghost mut gk2;
+    let ghost mut gk3;»
+    let bind_groups: Vec<_> = «{ let __i =» bind_group_data
+        .iter()«; proof { git = __i;
+            let s = git.remaining();
+            assert(s.len() == m.dom().len());
+            assert forall|i: int| 0 <= i < s.len() implies m.contains_key(*(#[trigger] s[i]).0) && m[*s[i].0] == *s[i].1 by {}
+            assert forall|i: int| 0 <= i < s.len() implies group_supported((#[trigger] s[i]).1) by {}
+        } __i }»
+        .map(|__p0| «-> (o: TokenStream) requires group_supported(__p0.1), stage_map_ok(global_stages@) ensures ts_view(&o) == group_item_toks(*__p0.0, __p0.1.bindings@, global_stages@)» { let (group_no, group) = __p0;
+            let group_name = indexed_name_to_ident("BindGroup", *group_no);
+
+            let layout = bind_group_layout(*group_no, group);
+            let layout_descriptor = bind_group_layout_descriptor(*group_no, group, global_stages);
+            let group_impl = bind_group(*group_no, group);
+
+            quote! {
+                #[derive(Debug)]
+                pub struct #group_name(wgpu::BindGroup);
+                #layout
+                #layout_descriptor
+                #group_impl
+            }
+        })
+        .collect();
+
+    «let ghost ks0 = Seq::new(git.remaining().len(), |i: int| *git.remaining()[i].0);
+    proof {
+        let s = git.remaining();
+        assert(bind_groups@.len() == s.len());
+        assert forall|i: int| 0 <= i < s.len() implies ts_view(&#[trigger] bind_groups@[i]) == group_item_toks(*s[i].0, s[i].1.bindings@, gs) by {}
+        assert(is_keys(ks0, m.dom())) by {
+            let ksr = s.map_values(|kv: (&u32, &GroupData)| *kv.0);
+            assert(vstd::laws_cmp::obeys_cmp::<u32>());
+            assert(vstd::std_specs::btree::increasing_seq(ksr));
+            vstd::std_specs::btree::axiom_increasing_seq_meaning::<u32>(ksr);
+            assert forall|a: int, b: int| 0 <= a < b < ks0.len() implies ks0[a] < ks0[b] by {
+                assert(<u32 as vstd::std_specs::cmp::OrdSpec>::cmp_spec(&ksr[a], &ksr[b]) is Less);
+            }
+            assert forall|x: u32| ks0.contains(x) <==> m.dom().contains(x) by {
+                if ks0.contains(x) { let i = choose|i: int| 0 <= i < ks0.len() && ks0[i] == x; assert(m.contains_key(*s[i].0)); }
+                if m.dom().contains(x) {
+                    assert(m.contains_key(x));
+                    let pr = (&x, &m[x]);
+                    assert(s.contains(pr));
+                    let i = choose|i: int| 0 <= i < s.len() && s[i] == pr;
+                    assert(ks0[i] == x);
+                }
+            }
+        }
+    }»
+    let bind_group_fields: Vec<_> = «{ let __k =» bind_group_data
+        .keys()«; proof { gk1 = __k; } __k }»
+        .map(|group_no| «-> (o: TokenStream) ensures ts_view(&o) == field_decl_toks(*group_no)» {
+            let group_name = indexed_name_to_ident("BindGroup", *group_no);
+            let field = indexed_name_to_ident("bind_group", *group_no);
+            quote!(pub #field: &'a #group_name)
+        })
+        .collect();
+
+    let group_parameters: Vec<_> = «{ let __k =» bind_group_data
+        .keys()«; proof { gk2 = __k; } __k }»
+        .map(|group_no| «-> (o: TokenStream) ensures ts_view(&o) == param_toks(*group_no)» {
+            let group = indexed_name_to_ident("bind_group", *group_no);
+            let group_type = indexed_name_to_ident("BindGroup", *group_no);
+            quote!(#group: &bind_groups::#group_type)
+        })
+        .collect();
+
+    // The set function for each bind group already sets the index.
+    let set_groups: Vec<_> = «{ let __k =» bind_group_data
+        .keys()«; proof { gk3 = __k; } __k }»
+        .map(|group_no| «-> (o: TokenStream) ensures ts_view(&o) == set_toks(*group_no)» {
+            let group = indexed_name_to_ident("bind_group", *group_no);
+            quote!(#group.set(pass);)
+        })
+        .collect();
+
+    let set_bind_groups = quote! {
+        pub fn set_bind_groups<P: bind_groups::SetBindGroup>(
+            pass: &mut P,
+            #(#group_parameters),*
+        ) {
+            #(#set_groups)*
+        }
+    };
+
+    «proof {
+        let dom = m.dom();
+        lemma_keys_iter(m, gk1.remaining()); lemma_keys_iter(m, gk2.remaining()); lemma_keys_iter(m, gk3.remaining());
+        lemma_keys_unique(gk1.remaining().unref(), ks0, dom);
+        lemma_keys_unique(gk2.remaining().unref(), ks0, dom);
+        lemma_keys_unique(gk3.remaining().unref(), ks0, dom);
+        assert forall|ks: Seq<u32>| is_keys(ks, dom) implies ks == ks0 by { lemma_keys_unique(ks, ks0, dom); }
+        let s = git.remaining();
+        assert forall|i: int| 0 <= i < ks0.len() implies m[ks0[i]].bindings@ == (#[trigger] s[i]).1.bindings@ by {}
+        assert(toks_of(bind_groups@) =~= Seq::new(ks0.len(), |i: int| group_item_toks(ks0[i], m[ks0[i]].bindings@, gs)));
+        assert(toks_of(bind_group_fields@) =~= Seq::new(ks0.len(), |i: int| field_decl_toks(ks0[i])));
+        assert(toks_of(group_parameters@) =~= Seq::new(ks0.len(), |i: int| param_toks(ks0[i])));
+        assert(toks_of(set_groups@) =~= Seq::new(ks0.len(), |i: int| set_toks(ks0[i])));
+    }»
+    if bind_groups.is_empty() {
+        // Don't include empty modules.
+        quote!()
+    } else {
+        // Create a module to avoid name conflicts with user structs.
+        quote! {
+            pub mod bind_groups {
+                #(#bind_groups)*
+
+                #[derive(Debug, Copy, Clone)]
+                pub struct BindGroups<'a> {
+                    #(#bind_group_fields),*
+                }
+
+                impl BindGroups<'_> {
+                    pub fn set<P: SetBindGroup>(&self, pass: &mut P) {
+                        #(self.#set_groups)*
+                    }
+                }
+
+                // Support both compute and render passes.
+                pub trait SetBindGroup {
+                    fn set_bind_group(
+                        &mut self,
+                        index: u32,
+                        bind_group: &wgpu::BindGroup,
+                        offsets: &[wgpu::DynamicOffset],
+                    );
+                }
+                impl SetBindGroup for wgpu::ComputePass<'_> {
+                    fn set_bind_group(
+                        &mut self,
+                        index: u32,
+                        bind_group: &wgpu::BindGroup,
+                        offsets: &[wgpu::DynamicOffset],
+                    ) {
+                        self.set_bind_group(index, bind_group, offsets);
+                    }
+                }
+                impl SetBindGroup for wgpu::RenderPass<'_> {
+                    fn set_bind_group(
+                        &mut self,
+                        index: u32,
+                        bind_group: &wgpu::BindGroup,
+                        offsets: &[wgpu::DynamicOffset],
+                    ) {
+                        self.set_bind_group(index, bind_group, offsets);
+                    }
+                }
+                impl SetBindGroup for wgpu::RenderBundleEncoder<'_> {
+                    fn set_bind_group(
+                        &mut self,
+                        index: u32,
+                        bind_group: &wgpu::BindGroup,
+                        offsets: &[wgpu::DynamicOffset],
+                    ) {
+                        self.set_bind_group(index, bind_group, offsets);
+                    }
+                }
+            }
+            #set_bind_groups
+        }
+    }
+}
+//@end
+
 
 } // verus!
 fn main() {}
